@@ -16,7 +16,7 @@ LEVEL_TEXT = ('Lean 4 theorems, for all shapes/offsets/data and any number of ov
               '_mul_pixelscale (regenerated from plane.py on every run) refuses exactly the defined-and-different pairs, independently of the unit of length; the phase argument, the metadata hand-over of Plane/Pupil/Image.multiply and the wiring of the three views (which goes through reduce, intensity flag, weight) are regenerated from the source and consumed by the model; insert/intensity of the model always return (C06 reduce_defined; the code additionally hits the Python recursion limit in _disjoint at about 1000 mutually overlapping fields). The array plumbing '
               'is a hand model checked against the implementation on exact and floating-point data.')
 LEVEL_NOTE = ('Partial: (1) fields/segments with exactly one element are excluded by hypothesis (lentil treats every size-1 array as a '
-              'broadcastable scalar; open known finding KF-C07-one-pixel-segment, which includes one-sample fields off centre under a default plane); '
+              'broadcastable scalar; open known finding KF-C07-one-pixel-segment, which includes one-sample fields off centre under a default plane; not repaired because C06 as given makes a (1,1) array a broadcastable constant: the two properties conflict on that input and the code follows C06); '
               '(2) chains that interleave planes and propagations are covered step by step by theorems and as a whole by correspondence and oracle only; '
               '(3) views on shape-() / zero-dimensional data are oracle-only; (4) multiply overrides other than Plane/Pupil/Image/Tilt are not exercised. Trusted: Lean kernel, py2lean subset '
               'semantics, NumPy slicing/broadcast/exp semantics as modelled, generator coverage of the correspondence.')
